@@ -531,7 +531,9 @@ void SmootherGive::smoothingForLoop(Vector<double>& x, const Vector<double>& rhs
 
     omp_set_num_threads(num_omp_threads_);
 
-    if (omp_get_max_threads() == 1) {
+    /* The stride-4 phases of the radial tasks keep neighbouring lines apart only if they close around the circle:
+     * for ntheta % 4 != 0 the first and the last task of a phase share a neighbour line, so sweep sequentially. */
+    if (omp_get_max_threads() == 1 || grid_.ntheta() % 4 != 0) {
         smoothingSequential(x, rhs, temp);
     }
     else {
